@@ -57,3 +57,13 @@ Theorem C19_flatstack_dense_free : forall (R : Region) (SP : RSpec R) (H : Regio
   fs_extend (fs_default (consec R O chk) (ic_nat index_optimized)) vs = Ok x ->
   ic_used (ic_nat index_optimized) (snd x) = [0; 0].
 Proof. exact (@fs_dense_index_free). Qed.
+
+(** The same over a ColumnsRegion (any cell region, rows of any widths, empty rows included): its row indices are
+    0, 1, 2, ... (C12), so the stack's optimised index container never spills. *)
+From FC Require Import Region.Columns Stack.FlatStackColumns.
+Theorem C19_flatstack_columns_free : forall (R : Region) (SP : RSpec R) (H : RegionOK R)
+  (O : IC nat) (HO : ICOk O) (chk : bool) (vs : list (val (columns R O chk))) x,
+  N.of_nat (length vs) <= W ->
+  fs_extend (fs_default (columns R O chk) (ic_nat index_optimized)) vs = Ok x ->
+  ic_used (ic_nat index_optimized) (snd x) = [0; 0].
+Proof. exact (@fs_columns_index_free). Qed.
